@@ -34,6 +34,7 @@ def trEv : List String → Option Ev
 
 def trustStep (s : St) : List String → St × String
   | ["reset"] => (init, "ok")
+  | ["author", chat, part] => (s, author chat (if part == "-" then none else some part))
   | "ev" :: rest =>
     match trEv rest with
     | some e =>
